@@ -194,4 +194,89 @@ theorem addRoutes_spec (g : Nat) : ∀ (rs : List (List Edge × Nat × Nat)) (t 
       · exact h
     · exact h3 x hx
 
+mutual
+  /-- `delRule` writes only nodes of the trie it walks, and what is left consists of such nodes. -/
+  theorem delRoute_spec (name : Nat) : ∀ (t : GNode) (r : GNode × List Nat), delRoute name t = some r →
+      (∀ w ∈ r.2, w ∈ gens t) ∧ (∀ x ∈ gens r.1, x ∈ gens t)
+    | .mk gen segs vars methods all, r, h => by
+      simp only [delRoute] at h
+      cases hs : delRouteL name segs with
+      | some rs =>
+        rw [hs] at h; simp only at h; injection h with h; subst h
+        obtain ⟨h1, h2⟩ := delRouteL_spec name segs rs hs
+        constructor
+        · intro w hw
+          simp only [List.mem_cons] at hw
+          simp only [gens, List.mem_cons, List.mem_append]
+          rcases hw with hw | hw
+          · exact Or.inl hw
+          · exact Or.inr (Or.inl (h1 w hw))
+        · intro x hx
+          simp only [gens, List.mem_cons, List.mem_append] at hx ⊢
+          rcases hx with hx | hx | hx
+          · exact Or.inl hx
+          · exact Or.inr (Or.inl (h2 x hx))
+          · exact Or.inr (Or.inr hx)
+      | none =>
+        rw [hs] at h; simp only at h
+        cases hv : delRouteL name vars with
+        | some rv =>
+          rw [hv] at h; simp only at h; injection h with h; subst h
+          obtain ⟨h1, h2⟩ := delRouteL_spec name vars rv hv
+          constructor
+          · intro w hw
+            simp only [List.mem_cons] at hw
+            simp only [gens, List.mem_cons, List.mem_append]
+            rcases hw with hw | hw
+            · exact Or.inl hw
+            · exact Or.inr (Or.inr (h1 w hw))
+          · intro x hx
+            simp only [gens, List.mem_cons, List.mem_append] at hx ⊢
+            rcases hx with hx | hx | hx
+            · exact Or.inl hx
+            · exact Or.inr (Or.inl hx)
+            · exact Or.inr (Or.inr (h2 x hx))
+        | none =>
+          rw [hv] at h; simp only at h
+          split at h
+          · injection h with h; subst h
+            constructor
+            · intro w hw; simp only [List.mem_singleton] at hw; subst hw; simp [gens]
+            · intro x hx; simpa [gens] using hx
+          · cases h
+  theorem delRouteL_spec (name : Nat) : ∀ (l : List (Nat × GNode)) (r : List (Nat × GNode) × List Nat),
+      delRouteL name l = some r → (∀ w ∈ r.2, w ∈ gensL l) ∧ (∀ x ∈ gensL r.1, x ∈ gensL l)
+    | [], r, h => by simp [delRouteL] at h
+    | (k, c) :: rest, r, h => by
+      simp only [delRouteL] at h
+      cases hc : delRoute name c with
+      | some rc =>
+        rw [hc] at h; simp only at h; injection h with h; subst h
+        obtain ⟨h1, h2⟩ := delRoute_spec name c rc hc
+        constructor
+        · intro w hw; simp only [gensL, List.mem_append]; exact Or.inl (h1 w hw)
+        · intro x hx
+          simp only [gensL, List.mem_append]
+          split at hx
+          · simp only [gensL, List.mem_append] at hx
+            rcases hx with hx | hx
+            · exact Or.inl (h2 x hx)
+            · exact Or.inr hx
+          · exact Or.inr hx
+      | none =>
+        rw [hc] at h; simp only at h
+        cases hr : delRouteL name rest with
+        | some rr =>
+          rw [hr] at h; simp only at h; injection h with h; subst h
+          obtain ⟨h1, h2⟩ := delRouteL_spec name rest rr hr
+          constructor
+          · intro w hw; simp only [gensL, List.mem_append]; exact Or.inr (h1 w hw)
+          · intro x hx
+            simp only [gensL, List.mem_append] at hx ⊢
+            rcases hx with hx | hx
+            · exact Or.inl hx
+            · exact Or.inr (h2 x hx)
+        | none => rw [hr] at h; simp at h
+end
+
 end Larking.CowTrie
